@@ -1,4 +1,6 @@
 import TcheranVerif.Model.See
+import TcheranVerif.Proofs.SeeMirror
+import TcheranVerif.Props.C07
 /-!
 # C20 — static exchange evaluation at threshold 0
 
@@ -14,8 +16,15 @@ Theorems over the exact model of `see` (`Model/See.lean`, piece values regenerat
 * `see_good_trade` — "victim worth at least the attacker ⇒ favourable", defended or not: after the first
   capture the mover is ahead by at least the value of its own man, so the opponent's recapture leaves a
   non-negative score and the mover then stands pat (`loop_good_trade`).
-Colour-swap invariance and agreement with the independent swap list on tie-free positions are decided by the
-`see` stream (implementation = model, and implementation vs. specification): partial.
+* **`see_mirror`** — colour-swap invariance, for **every** board (no legality needed), move and threshold: the
+  verdict on `Move.mirror mv` in `Game.mirror g` is the verdict on `mv` in `g`. By simulation over the
+  loop (`Proofs/SeeMirror.loop_mirror`): the mirrored run is in the flipped state at every iteration; the
+  x-ray refreshes commute with the flip through C07's ray-walk equality; the choice among equally valued
+  attackers commutes because it is colour-relative (`pickSquare_mirror` — this is exactly what the `fix:`
+  of the raw-square tie-break made true; with the old choice the lemma is false). The correspondence
+  stream checks that the second position of each request pair is `Game.mirror` of the first.
+Agreement with the independent swap list on tie-free positions is decided by the `see` stream
+(implementation vs. specification): partial.
 -/
 namespace Tcheran.Props.C20
 open Tcheran Tcheran.See
@@ -141,6 +150,26 @@ theorem see_good_trade (g : Game) (mv : Move) (moved captured : Piece) (r : Bool
 
 example : pieceValue .queen = 900 := by decide
 
+/-- the slider tables of the engine are the ray walks (`Props.C07`) -/
+theorem sliderTables : SliderTables :=
+  ⟨Tcheran.Props.C07.rook_table_geometric, Tcheran.Props.C07.bishop_table_geometric⟩
+
+/-- **see_mirror**: invariance under colour swap + board flip, every position, capture and threshold -/
+theorem see_mirror (c : Cfg) (g : Game) (mv : Move) (thr : Int) :
+    see (Game.mirror c g) mv.mirror thr = see g mv thr :=
+  Tcheran.See.see_mirror sliderTables c g mv thr
+
+/-- the choice among equally valued attackers is colour-relative -/
+theorem tie_break_mirror (color : Player) (X : BB) :
+    pickSquare color.other (BB.flipV X) = (pickSquare color X).map Sq.flip :=
+  pickSquare_mirror color X
+
+/-- non-vacuity / the defect that was repaired: choosing by raw square index does **not** commute with the
+mirror (two candidates on a2 and c4: White takes a2; a raw-index choice for Black in the mirrored position
+takes c5, the image of c4, instead of a7) -/
+example : BB.lsbSq? (BB.flipV (bb ⟨8, by decide⟩ ||| bb ⟨26, by decide⟩)) ≠
+    (BB.lsbSq? (bb ⟨8, by decide⟩ ||| bb ⟨26, by decide⟩)).map Sq.flip := by decide +kernel
+
 end Tcheran.Props.C20
 #print axioms Tcheran.Props.C20.values
 #print axioms Tcheran.Props.C20.values_ordered
@@ -150,3 +179,6 @@ end Tcheran.Props.C20
 #print axioms Tcheran.Props.C20.see_undefended
 #print axioms Tcheran.Props.C20.loop_good_trade
 #print axioms Tcheran.Props.C20.see_good_trade
+#print axioms Tcheran.Props.C20.sliderTables
+#print axioms Tcheran.Props.C20.see_mirror
+#print axioms Tcheran.Props.C20.tie_break_mirror
